@@ -107,6 +107,16 @@ def gen_plan(S, index, tier):
     pool = {'A0': {'kind': 'ann', 'via': S.pick(['parse', 'create']), 'spec': sp}}
     if pool['A0']['via'] == 'create':
         pool['A0']['order'] = SP.gen_order(S, sp)
+    peps = ['A0']
+    if S.coin(0.4) and not poisoned:
+        # a sibling peptide with the SAME residues and other modifications, fragmented alongside (state keyed on the
+        # residues, or shared between Fragmenter objects, only shows with two of them)
+        sp2 = SP.gen_pep(S, cfg, length=len(sp['seq']))
+        sp2['seq'] = sp['seq']
+        sp2['static'] = [st for st in sp2['static'] if all(t in sp['seq'] or t in ('N-Term', 'C-Term')
+                                                           for t in st.rpartition('@')[2].split(','))]
+        pool['A1'] = {'kind': 'ann', 'via': S.pick(['parse', 'create']), 'spec': sp2}
+        peps.append('A1')
     events = []
     nfr = 0
     nres = 0
@@ -133,7 +143,8 @@ def gen_plan(S, index, tier):
             fh = f'FR{nfr}'
             nfr += 1
             frs.append(fh)
-            events.append({'act': 'new', 'out': fh, 'src': S.pick(['ann', 'ann', 'str']), 'mono': S.coin(0.7)})
+            events.append({'act': 'new', 'out': fh, 'src': S.pick(['ann', 'ann', 'str']), 'mono': S.coin(0.7),
+                           'pep': S.pick(peps)})
         elif act == 'frag':
             prev = [e['cfg'] for e in events if e['act'] == 'frag']
             if prev and S.coin(0.55):
@@ -148,13 +159,14 @@ def gen_plan(S, index, tier):
                 c['losses_handle'] = False
             via = (frs[0] if S.coin(0.7) else S.pick(frs)) if frs and S.coin(0.8) else 'direct'
             ev = {'act': 'frag', 'via': via, 'cfg': c, 'mono': S.coin(0.7), 'out': f'R{nres}', 'sel': S.randint(0, 10 ** 6),
-                  'client': S.randint(0, 1)}
+                  'client': S.randint(0, 1), 'pep': S.pick(peps)}
             nres += 1
             events.append(ev)
             if S.coin(0.35) and c['return_type'] != 'fragment':
                 pass
         elif act == 'query':
-            events.append({'act': 'query', 'op': S.pick(QUERIES), 'client': 1, 'sel': S.randint(0, 10 ** 6)})
+            events.append({'act': 'query', 'op': S.pick(QUERIES), 'client': 1, 'sel': S.randint(0, 10 ** 6),
+                           'pep': S.pick(peps)})
         elif act == 'scribble':
             events.append({'act': 'scribble', 'res': f'R{S.randint(0, nres - 1)}', 'k': S.randint(0, 999)})
         elif act == 'todict':
@@ -245,13 +257,24 @@ class _Run(RunBase):
 
     def __init__(self, plan):
         super().__init__(plan)
-        self.a = None
-        self.m = None
-        self.frs = {}       # handle -> {'obj', 'src', 'mono'}
+        self.peps = {}      # handle -> {'a': live annotation, 'm': model, 'nf': dump at build time}
+        self.cur = 'A0'     # the peptide the current event works on
+        self.frs = {}       # handle -> {'obj', 'mono', 'pep'}
         self.results = {}   # handle -> list or None
         self.losses = None
-        self.a_nf = None
         self.losses_nf = None
+
+    @property
+    def a(self):
+        return self.peps[self.cur]['a']
+
+    @property
+    def m(self):
+        return self.peps[self.cur]['m']
+
+    @property
+    def a_nf(self):
+        return self.peps[self.cur]['nf']
 
 
 def _tol(cfg, mono):
@@ -266,9 +289,11 @@ def execute(plan):
     run = _Run(plan)
     out = run.out
     hdr = plan['header']
-    entry = plan['pool']['A0']
     try:
-        run.a = world.build_ann(entry)
+        for h, entry in plan['pool'].items():
+            if entry['kind'] == 'ann':
+                obj = world.build_ann(entry)
+                run.peps[h] = {'a': obj, 'm': ModelPeptide.from_spec(entry['spec']), 'nf': N.norm_ann(obj)}
     except world.BuildMismatch as e:
         out.probes['build_mismatch'] += 1
         out.record(['build_mismatch', str(e)[:200]])
@@ -277,9 +302,7 @@ def execute(plan):
         out.probes['build_failed'] += 1
         out.record(['build_failed', N.norm_exc(e)])
         return out
-    run.m = ModelPeptide.from_spec(entry['spec'])
     run.losses = [tuple(x) for x in plan.get('shared_losses', [])]
-    run.a_nf = N.norm_ann(run.a)
     run.losses_nf = N.norm(run.losses)
     random.seed(hdr.get('seed', 0) % 999983)
     shape = []
@@ -289,6 +312,9 @@ def execute(plan):
         shape.append(act + ':' + str(ev.get('via') or ev.get('op') or ''))
         stop = False
         g0 = Env.G.cheap()
+        run.cur = ev.get('pep', 'A0') if ev.get('pep', 'A0') in run.peps else 'A0'
+        if act == 'frag' and ev.get('via') in run.frs:
+            run.cur = run.frs[ev['via']]['pep']
         if act == 'new':
             stop = _do_new(run, ev_i, ev)
         elif act == 'frag':
@@ -298,7 +324,7 @@ def execute(plan):
         elif act == 'scribble':
             r = run.results.get(ev['res'])
             if r is not None:
-                how = world.scribble(r, ev['k'], [run.a, run.losses])
+                how = world.scribble(r, ev['k'], [pp['a'] for pp in run.peps.values()] + [run.losses])
                 if how:
                     out.faults['scribble'] += 1
                 run.results[ev['res']] = None
@@ -315,11 +341,18 @@ def execute(plan):
             break
         # shared arguments unchanged, process-wide state undisturbed (cheap forms)
         out.oracle_checks += 1
-        d = N.same(run.a_nf, N.norm_ann(run.a))
-        if d is not None:
-            if run.violation('ARG', act, 'annotation', f"ARG: event {ev_i} ({act}) changed the shared annotation: {d}", ev_i):
+        d = None
+        for hh, pp in run.peps.items():
+            d = N.same(pp['nf'], N.norm_ann(pp['a']))
+            if d is not None:
+                d = f"{hh}: {d}"
                 break
-            world.restore(run.a, run.a_nf)
+        if d is not None:
+            if run.violation('ARG', act, 'annotation', f"ARG: event {ev_i} ({act}) changed a shared annotation: {d}", ev_i):
+                break
+            for pp in run.peps.values():
+                if N.same(pp['nf'], N.norm_ann(pp['a'])) is not None:
+                    world.restore(pp['a'], pp['nf'])
         d = N.same(run.losses_nf, N.norm(run.losses))
         if d is not None:
             if run.violation('ARG', act, 'losses', f"ARG: event {ev_i} ({act}) changed the shared losses list: {d}", ev_i):
@@ -359,7 +392,9 @@ def _do_new(run, ev_i, ev):
     if poisoned:
         return run.violation('POISON', 'Fragmenter', 'no-error',
                              f"POISON: Fragmenter() accepted a peptide with unresolvable modification {poisoned}", ev_i)
-    run.frs[ev['out']] = {'obj': fr, 'mono': ev['mono']}
+    run.frs[ev['out']] = {'obj': fr, 'mono': ev['mono'], 'pep': run.cur}
+    if len(run.peps) > 1:
+        out.probes['fragmenters_on_sibling_peptides'] += 1
     out.record([ev_i, 'fragmenter'])
     return False
 
@@ -613,10 +648,16 @@ def _do_todict(run, ev_i, ev):
 
 def shrink_candidates(plan):
     from sim.props.c08 import _spec_shrinks
-    sp = plan['pool']['A0']['spec']
-    for cand in _spec_shrinks(sp):
+    for h0 in [k for k, v in plan['pool'].items() if v['kind'] == 'ann']:
+        for cand in _spec_shrinks(plan['pool'][h0]['spec']):
+            if len(cand['seq']) != len(plan['pool'][h0]['spec']['seq']) and 'A1' in plan['pool']:
+                continue     # siblings keep the same residues
+            p2 = copy.deepcopy(plan)
+            p2['pool'][h0]['spec'] = cand
+            yield p2
+    if 'A1' in plan['pool']:
         p2 = copy.deepcopy(plan)
-        p2['pool']['A0']['spec'] = cand
+        del p2['pool']['A1']
         yield p2
     for i, ev in enumerate(plan['events']):
         if ev['act'] != 'frag':
@@ -653,7 +694,7 @@ RULE = ("seeded random history of 3-10 fragment calls (ion types: non-empty subs
         "residue, terminal, static and isotope-label modifications, interleaved with a second client's queries on the "
         "same annotation, scribbles on results and touches of cached Fragment properties. Distinct = distinct sequence "
         "of (event kind, via); non-trivial = at least two fragment calls and more than three oracle comparisons.")
-EXPECTED_PROBES = ['fragmenter_calls', 'projection_checked', 'ion_mass_checked', 'to_dict_checked']
+EXPECTED_PROBES = ['fragmenters_on_sibling_peptides', 'fragmenter_calls', 'projection_checked', 'ion_mass_checked', 'to_dict_checked']
 ASSUMPTIONS = [
     "per response at most 14 ions (scheduler-chosen) get the per-ion checks (numbering, carried modifications, mass "
     "calculator); enumeration, coherence and projection are checked on every ion",
